@@ -77,7 +77,7 @@ Proof.
 Qed.
 
 Lemma spec_walk_backward s rest k : forall chain, (k < length chain)%nat ->
-  spec_walk s chain (repeat [DOT; DOT] k ++ rest) =
+  spec_walk s chain (repeat DOTDOT k ++ rest) =
     let up := firstn (length chain - k) chain in
     let '(v, f) := spec_walk s up rest in
     (map (fun j => nth (length chain - 2 - j) chain 0%nat) (seq 0 k) ++ v, f).
@@ -85,7 +85,7 @@ Proof.
   induction k as [|k IH]; intros chain Hk.
   - cbn [repeat app seq map]. rewrite Nat.sub_0_r, firstn_all. cbn zeta.
     destruct (spec_walk s chain rest). reflexivity.
-  - cbn [repeat app spec_walk]. change (is_dotdot [DOT; DOT]) with true. cbn iota.
+  - cbn [repeat app spec_walk]. change (is_dotdot DOTDOT) with true. cbn iota.
     rewrite removelast_firstn_len.
     destruct (firstn (length chain - 1) chain) as [|u0 up'] eqn:Eup.
     { exfalso. assert (Hl : length (firstn (length chain - 1) chain) = (length chain - 1)%nat) by (rewrite firstn_length; lia).
@@ -243,9 +243,9 @@ Proof.
   assert (Esk : skipn k names = rest).
   { rewrite En. rewrite skipn_app, repeat_length, Nat.sub_diag. cbn [skipn].
     rewrite skipn_all2 by (rewrite repeat_length; lia). reflexivity. }
-  rewrite Esk in *.
-  rewrite En at 1. change DOTDOT with [DOT; DOT].
-  rewrite (spec_walk_backward s rest k (hids h)) by lia. cbn zeta.
+  rewrite Esk in *. clear Esk Ek Hv.
+  clearbody k. subst names.
+  rewrite (spec_walk_backward s rest k (hids h)) by lia. cbv zeta.
   rewrite (spec_walk_forward s rest _ Hnd).
   assert (Elast : last (firstn (length (hids h) - k) (hids h)) 0%nat = nth (length par - k) (hids h) 0%nat).
   { rewrite last_nth, firstn_length. rewrite nth_firstn_lt by lia. f_equal. lia. }
@@ -264,15 +264,30 @@ Proof.
       + replace (S (length par) - k)%nat with (S (length par - k)) by lia. cbn [firstn nth app]. f_equal.
         apply IH; lia. }
   destruct oh as [h2|].
-  - destruct Hoh as (Eh2 & Elen & _). rewrite app_length, map_length, seq_length in *.
-    rewrite En in Elen at 2. rewrite app_length, repeat_length in Elen.
+  - destruct Hoh as (Eh2 & Elen & _). rewrite !app_length, map_length, seq_length, repeat_length in *.
     assert (Efw : length (ent_walk s (nth (length par - k) (hids h) 0%nat) rest) = length rest) by lia.
     rewrite Efw, Nat.eqb_refl. split.
     + f_equal. rewrite Eh2, Efirst, <- app_assoc. reflexivity.
-    + rewrite En at 2. rewrite app_length, repeat_length. lia.
-  - destruct Hoh as (Es & Hne). rewrite app_length, map_length, seq_length in Hne.
-    rewrite En in Hne at 2. rewrite app_length, repeat_length in Hne.
+    + lia.
+  - destruct Hoh as (Es & Hne). rewrite !app_length, map_length, seq_length, repeat_length in Hne.
     destruct (length (ent_walk s (nth (length par - k) (hids h) 0%nat) rest) =? length rest)%nat eqn:Eq2.
     + apply Nat.eqb_eq in Eq2. lia.
     + auto.
 Qed.
+
+Lemma fh_walk_valid s h names r : fh_walk s h names = Ok r -> 0 <= valid_path names.
+Proof.
+  unfold fh_walk. destruct (walk_name (h_path h) names) as [newpath| | |] eqn:Ew; try discriminate.
+  intros _. unfold walk_name in Ew. destruct (h_path h); try discriminate.
+  destruct (Z.ltb (valid_path names) 0 || _) eqn:Hc; try discriminate. lia.
+Qed.
+
+Lemma fh_walk_spec' s h names qids oh s' :
+  fh_walk s h names = Ok (qids, oh, s') ->
+  let '(v, f) := spec_walk s (hids h) names in
+  qids = map (fun a => qid_of (n_info (getn s a))) v /\
+  match oh with
+  | Some h2 => f = Some (hids h2) /\ length v = length names
+  | None => f = None /\ s' = s
+  end.
+Proof. intros W. apply fh_walk_spec; auto. eapply fh_walk_valid; eauto. Qed.
